@@ -987,11 +987,30 @@ func (ctx Ctx) selectExpr(e *ast.SelectorExpr) coq.Expr {
 			return coq.GallinaIdent("disk." + e.Sel.Name)
 		}
 		if pkg, ok := getIdent(e.X); ok {
-			return coq.PackageIdent{
+			if fun, ok := ctx.info.Uses[e.Sel].(*types.Func); ok && fun.Pkg() != nil {
+				if _, special := specialPackages[fun.Pkg().Path()]; special {
+					// the calls of these functions are translated by name;
+					// there is no GooseLang value of that name
+					ctx.unsupported(e, "function %s.%s used as a value", pkg, e.Sel.Name)
+				}
+			}
+			var x coq.Expr = coq.PackageIdent{
 				Package: pkg,
 				Ident:   e.Sel.Name,
 			}
+			if inst, ok := ctx.info.Instances[e.Sel]; ok {
+				// a generic function used as a value takes its inferred
+				// type arguments first
+				if typeArgs := ctx.typeList(e, inst.TypeArgs); len(typeArgs) > 0 {
+					return coq.CallExpr{MethodName: x, TypeArgs: typeArgs}
+				}
+			}
+			return x
 		}
+	}
+	if sel, ok := ctx.info.Selections[e]; ok && sel.Kind() == types.FieldVal && isCondVar(selectorType) {
+		// a Cond is a reference to its lock in GooseLang, not a struct
+		ctx.unsupported(e, "field %s of sync.Cond", e.Sel.Name)
 	}
 	structInfo, ok := ctx.getStructInfo(selectorType)
 
@@ -1004,6 +1023,18 @@ func (ctx Ctx) selectExpr(e *ast.SelectorExpr) coq.Expr {
 		isFuncType = false
 	}
 	if isFuncType {
+		recv := selectorType
+		if pt, ok := recv.(*types.Pointer); ok {
+			recv = pt.Elem()
+		}
+		named, isNamed := recv.(*types.Named)
+		if !ok || !isNamed || named.Obj().Pkg() == nil {
+			// an interface value, a named type that is not a struct, ...
+			ctx.unsupported(e, "method value of a receiver of type %v", selectorType)
+		} else if _, special := specialPackages[named.Obj().Pkg().Path()]; special {
+			// Lock, Unlock, Done, ... exist as operations, not as values
+			ctx.unsupported(e, "method value %s of %v", e.Sel.Name, selectorType)
+		}
 		m := coq.MethodName(structInfo.name, e.Sel.Name)
 		ctx.dep.addDep(m)
 		// (inside the method itself this is its rec binder, as for a call)
@@ -1875,6 +1906,10 @@ func (ctx Ctx) varDeclStmt(s *ast.DeclStmt) coq.Binding {
 func (ctx Ctx) refExpr(s ast.Expr) coq.Expr {
 	switch s := s.(type) {
 	case *ast.Ident:
+		if ctx.isGlobalVar(s) {
+			// globals are constants: there is no cell to point to
+			ctx.unsupported(s, "address of the global variable %s", s.Name)
+		}
 		// this is the intended translation even if s is pointer-wrapped
 		return coq.IdentExpr(s.Name)
 	case *ast.SelectorExpr:
